@@ -158,6 +158,53 @@ inline void put_rows(Line& l, std::vector<Line>& rows, bool sorted) {
 template<typename V> inline Bytes to_bytes(const V& v) { return Bytes(v.begin(), v.end()); }
 inline I arg(const Line& t, size_t i, I dflt = 0) { return i < t.size() ? t[i] : dflt; }
 
+// ---------------------------------------------------------------------------------------------------------------
+// C10 input canonicalisation: the same logical values through different update() overloads into separate sketches
+// must give identical images. F: struct { typedef ... sk; sk make(); template<V> void up(sk&, V); void ups(sk&, const std::string&);
+// void upr(sk&, const void*, size_t); Bytes img(sk&); static const bool full; }  (full = has all integer and floating overloads)
+// One R token per variant: a 64-bit digest of the image, or -2 where the type has no such overload. Variant list: see CANON in fam_serde.py.
+// ---------------------------------------------------------------------------------------------------------------
+inline I fnv64(const Bytes& b) { uint64_t h = 0xcbf29ce484222325ULL; for (uint8_t c : b) { h ^= c; h *= 0x100000001b3ULL; } return (I)h; }
+inline double dbl_of_bits(uint64_t u) { double d; memcpy(&d, &u, 8); return d; }
+inline float flt_of_bits(uint32_t u) { float d; memcpy(&d, &u, 4); return d; }
+template<typename F, typename V> inline I canon_ints(F& f, const int64_t* vals, size_t n) {
+  typename F::sk s = f.make(); for (size_t i = 0; i < n; ++i) f.up(s, static_cast<V>(vals[i])); return fnv64(f.img(s));
+}
+template<typename F, typename V> inline I canon_one(F& f, V v) { typename F::sk s = f.make(); f.up(s, v); return fnv64(f.img(s)); }
+template<typename F> inline void canon_variants(F f, Out& o) {
+  static const int64_t SMALL[5] = {0, 1, 5, 100, 127}, NEG[3] = {-1, -5, -128};
+  const bool full = F::full;
+  // 0..7: values 0..127 through int8,int16,int32,int64,uint8,uint16,uint32,uint64
+  o.R(full ? canon_ints<F, int8_t>(f, SMALL, 5) : -2); o.R(full ? canon_ints<F, int16_t>(f, SMALL, 5) : -2); o.R(full ? canon_ints<F, int32_t>(f, SMALL, 5) : -2);
+  o.R(canon_ints<F, int64_t>(f, SMALL, 5));
+  o.R(full ? canon_ints<F, uint8_t>(f, SMALL, 5) : -2); o.R(full ? canon_ints<F, uint16_t>(f, SMALL, 5) : -2); o.R(full ? canon_ints<F, uint32_t>(f, SMALL, 5) : -2);
+  o.R(canon_ints<F, uint64_t>(f, SMALL, 5));
+  // 8..11: negative values through the signed overloads (sign extension)
+  o.R(full ? canon_ints<F, int8_t>(f, NEG, 3) : -2); o.R(full ? canon_ints<F, int16_t>(f, NEG, 3) : -2); o.R(full ? canon_ints<F, int32_t>(f, NEG, 3) : -2);
+  o.R(canon_ints<F, int64_t>(f, NEG, 3));
+  // 12..16: edges of the unsigned overloads (recorded, compared with the reference only)
+  o.R(full ? canon_one<F, uint8_t>(f, 255) : -2); o.R(full ? canon_one<F, int8_t>(f, -1) : -2); o.R(full ? canon_one<F, uint16_t>(f, 65535) : -2);
+  o.R(full ? canon_one<F, uint32_t>(f, 4294967295u) : -2); o.R(canon_one<F, uint64_t>(f, 0xffffffffffffffffULL));
+  // 17,18: the same values as double and as float
+  if (full) {
+    static const double FV[4] = {1.0, 0.5, -2.25, 16777216.0};
+    { typename F::sk s = f.make(); for (int i = 0; i < 4; ++i) f.up(s, FV[i]); o.R(fnv64(f.img(s))); }
+    { typename F::sk s = f.make(); for (int i = 0; i < 4; ++i) f.up(s, (float)FV[i]); o.R(fnv64(f.img(s))); }
+    // 19..22: 0.0, -0.0 as double and float
+    o.R(canon_one<F, double>(f, 0.0)); o.R(canon_one<F, double>(f, -0.0)); o.R(canon_one<F, float>(f, 0.0f)); o.R(canon_one<F, float>(f, -0.0f));
+    // 23..28: NaN payloads (quiet, quiet with payload, negative quiet, signalling) as double; quiet and negative NaN as float
+    o.R(canon_one<F, double>(f, dbl_of_bits(0x7ff8000000000000ULL))); o.R(canon_one<F, double>(f, dbl_of_bits(0x7ff8000000000001ULL)));
+    o.R(canon_one<F, double>(f, dbl_of_bits(0xfff8000000000000ULL))); o.R(canon_one<F, double>(f, dbl_of_bits(0x7ff0000000000001ULL)));
+    o.R(canon_one<F, float>(f, flt_of_bits(0x7fc00000u))); o.R(canon_one<F, float>(f, flt_of_bits(0xffc00001u)));
+  } else { for (int i = 17; i <= 28; ++i) o.R(-2); }
+  // 29..31: "abc"; "" then "abc" (the empty string is ignored); "abc" as raw bytes
+  { typename F::sk s = f.make(); f.ups(s, "abc"); o.R(fnv64(f.img(s))); }
+  { typename F::sk s = f.make(); f.ups(s, ""); f.ups(s, "abc"); o.R(fnv64(f.img(s))); }
+  { typename F::sk s = f.make(); f.upr(s, "abc", 3); o.R(fnv64(f.img(s))); }
+  // 32: a fixed small mixed stream (reference image digest)
+  { typename F::sk s = f.make(); for (int64_t i = 0; i < 40; ++i) f.up(s, (int64_t)(i * 1000003 - 17)); f.ups(s, "datasketches"); f.ups(s, "x"); f.up(s, (uint64_t)1 << 63); o.R(fnv64(f.img(s))); }
+}
+
 #if SERDE_G(1)
 // ===============================================================================================================
 // Theta
@@ -340,6 +387,27 @@ inline Obj* build_aod(const Line& t) {  // lg_k p seed n base ordered num_values
   for (int64_t i = 0; i < n; ++i) { for (uint8_t j = 0; j < nv; ++j) a[j] = 0.5 * (double)(j + 1) + (double)(i % 4); u.update((uint64_t)(base + i), a); }
   return new AodObj(compact_array_of_doubles_sketch(u, arg(t, 8, 1) != 0), seed, lgk);
 }
+struct CanonTheta { typedef update_theta_sketch sk; static const bool full = true;
+  sk make() { return update_theta_sketch::builder().set_lg_k(8).build(); }
+  template<typename V> void up(sk& s, V v) { s.update(v); } void ups(sk& s, const std::string& x) { s.update(x); } void upr(sk& s, const void* p, size_t n) { s.update(p, n); }
+  Bytes img(sk& s) { return to_bytes(s.compact(true).serialize()); } };
+struct CanonTuple { typedef update_tuple_sketch<double> sk; static const bool full = true;
+  sk make() { return update_tuple_sketch<double>::builder().set_lg_k(8).build(); }
+  template<typename V> void up(sk& s, V v) { s.update(v, 1.5); } void ups(sk& s, const std::string& x) { s.update(x, 1.5); } void upr(sk& s, const void* p, size_t n) { s.update(p, n, 1.5); }
+  Bytes img(sk& s) { return to_bytes(s.compact(true).serialize()); } };
+struct CanonAod { typedef update_array_of_doubles_sketch sk; static const bool full = true; std::vector<double> a;
+  CanonAod() : a(2, 1.5) {}
+  sk make() { return update_array_of_doubles_sketch::builder(default_array_of_doubles_update_policy(2)).set_lg_k(8).build(); }
+  template<typename V> void up(sk& s, V v) { s.update(v, a); } void ups(sk& s, const std::string& x) { s.update(x, a); } void upr(sk& s, const void* p, size_t n) { s.update(p, n, a); }
+  Bytes img(sk& s) { return to_bytes(compact_array_of_doubles_sketch(s, true).serialize()); } };
+SERDE_LINKAGE bool canon_g1(int type, Out& o) {
+  switch (type) {
+    case 1: canon_variants(CanonTheta(), o); return true;
+    case 2: canon_variants(CanonTuple(), o); return true;
+    case 3: canon_variants(CanonAod(), o); return true;
+    default: return false;
+  }
+}
 SERDE_LINKAGE Obj* build_g1(int fam, const Line& t) {
   switch (fam) {
     case FAM_THETA: return build_theta(t);
@@ -502,6 +570,32 @@ inline Obj* build_cpc(const Line& t) {  // lg_k seed n base merged
   return new CpcObj(std::move(s), seed);
 }
 
+struct CanonHll { typedef hll_sketch sk; static const bool full = true; target_hll_type ty; explicit CanonHll(target_hll_type t) : ty(t) {}
+  sk make() { return hll_sketch(10, ty); }
+  template<typename V> void up(sk& s, V v) { s.update(v); } void ups(sk& s, const std::string& x) { s.update(x); } void upr(sk& s, const void* p, size_t n) { s.update(p, n); }
+  Bytes img(sk& s) { Bytes b = to_bytes(s.serialize_compact()); Bytes u = to_bytes(s.serialize_updatable()); b.insert(b.end(), u.begin(), u.end()); return b; } };
+struct CanonHllUnion { typedef hll_union sk; static const bool full = true;
+  sk make() { return hll_union(10); }
+  template<typename V> void up(sk& s, V v) { s.update(v); } void ups(sk& s, const std::string& x) { s.update(x); } void upr(sk& s, const void* p, size_t n) { s.update(p, n); }
+  Bytes img(sk& s) { return to_bytes(s.get_result(HLL_8).serialize_compact()); } };
+struct CanonCpc { typedef cpc_sketch sk; static const bool full = true;
+  sk make() { return cpc_sketch(10); }
+  template<typename V> void up(sk& s, V v) { s.update(v); } void ups(sk& s, const std::string& x) { s.update(x); } void upr(sk& s, const void* p, size_t n) { s.update(p, n); }
+  Bytes img(sk& s) { return to_bytes(s.serialize()); } };
+struct CanonCpcUnion { typedef cpc_sketch sk; static const bool full = true;     // cpc_union takes sketches only: each variant's sketch goes through a union
+  sk make() { return cpc_sketch(10); }
+  template<typename V> void up(sk& s, V v) { s.update(v); } void ups(sk& s, const std::string& x) { s.update(x); } void upr(sk& s, const void* p, size_t n) { s.update(p, n); }
+  Bytes img(sk& s) { cpc_union u(10); u.update(s); return to_bytes(u.get_result().serialize()); } };
+SERDE_LINKAGE bool canon_g2(int type, Out& o) {
+  switch (type) {
+    case 4: canon_variants(CanonHll(HLL_4), o); return true;
+    case 5: canon_variants(CanonCpc(), o); return true;
+    case 6: canon_variants(CanonHllUnion(), o); return true;
+    case 7: canon_variants(CanonCpcUnion(), o); return true;
+    case 8: canon_variants(CanonHll(HLL_8), o); return true;
+    default: return false;
+  }
+}
 SERDE_LINKAGE Obj* build_g2(int fam, const Line& t) {
   switch (fam) {
     case FAM_HLL: return build_hll(t);
@@ -864,6 +958,16 @@ inline Obj* build_eb(const Line& t) {   // k n base wmode
   return new EbObj<T, SD, FAMCODE>(std::move(s));
 }
 
+struct CanonCm { typedef count_min_sketch<int64_t> sk; static const bool full = false;
+  sk make() { return count_min_sketch<int64_t>(3, 32, 123); }
+  void up(sk& s, int64_t v) { s.update(v, 1); } void up(sk& s, uint64_t v) { s.update(v, 1); }
+  template<typename V> void up(sk&, V) {}   // count-min has no other item overloads (never reached: full == false)
+  void ups(sk& s, const std::string& x) { s.update(x, 1); } void upr(sk& s, const void* p, size_t n) { s.update(p, n, 1); }
+  Bytes img(sk& s) { return to_bytes(s.serialize()); } };
+SERDE_LINKAGE bool canon_g4(int type, Out& o) {
+  if (type == 15) { canon_variants(CanonCm(), o); return true; }
+  return false;
+}
 SERDE_LINKAGE Obj* build_g4(int fam, const Line& t) {
   switch (fam) {
     case FAM_FI_I: return build_fi<int64_t, serde<int64_t>, FAM_FI_I>(t);
@@ -1057,6 +1161,14 @@ inline Obj* build_dens(const Line& t) {   // k dim n base
   return new DensObj<T, FAMCODE>(std::move(s));
 }
 
+struct CanonBloom { typedef bloom_filter sk; static const bool full = true;
+  sk make() { return bloom_filter::builder::create_by_size(512, 3, 123); }
+  template<typename V> void up(sk& s, V v) { s.update(v); } void ups(sk& s, const std::string& x) { s.update(x); } void upr(sk& s, const void* p, size_t n) { s.update(p, n); }
+  Bytes img(sk& s) { return to_bytes(s.serialize()); } };
+SERDE_LINKAGE bool canon_g5(int type, Out& o) {
+  if (type == 23) { canon_variants(CanonBloom(), o); return true; }
+  return false;
+}
 SERDE_LINKAGE Obj* build_g5(int fam, const Line& t) {
   switch (fam) {
     case FAM_TD_D: return build_td<double, FAM_TD_D>(t);
@@ -1071,6 +1183,7 @@ SERDE_LINKAGE Obj* build_g5(int fam, const Line& t) {
 
 // FAMILIES-END
 #if SERDE_GROUP == 0
+inline bool canon(int type, Out& o) { return canon_g1(type, o) || canon_g2(type, o) || canon_g4(type, o) || canon_g5(type, o); }
 inline Obj* build(int fam, const Line& t) {
   Obj* p = nullptr;
   if ((p = build_g1(fam, t))) return p;
